@@ -289,8 +289,59 @@ pub fn run_program(p: &Program) -> (Vec<F>, String) {
     (fs, outcome)
 }
 
+/// A closure that appends explicitly and returns a frame this same handler emitted earlier
+/// (`.head` of its own topic): the return value is not emitted again, the explicit append of
+/// *this* call is - stamped with this call's trigger, before anything of a later call.
+pub fn run_own_return() -> (Vec<F>, String) {
+    let mut fs = vec![];
+    let w = World::start(Serve { handlers: true, ..Default::default() });
+    let ctx = w.ctx_a;
+    let src = "{\n  run: {|frame|\n    if $frame.topic == \"flush\" { return \"flushed\" }\n    if $frame.topic != \"trigger\" { return }\n    \"entry\" | .append journal\n    .head journal\n  }\n}";
+    let reg = w.append_c("h.register", ctx, Some(src), None);
+    if w.wait(|f| f.topic == "h.registered" && meta_str(f, "handler_id") == Some(reg.id.to_string()), 30.0).is_none() {
+        fs.push(F { kind: "c15.harness".into(), msg: "own-return script did not register".into() });
+        w.stop();
+        return (fs, "noreg".into());
+    }
+    let mut triggers = vec![];
+    for _ in 0..3 {
+        let t = w.append_c("trigger", ctx, None, None);
+        // each call is complete before the next trigger arrives
+        w.wait(|f| f.topic == "journal" && meta_str(f, "frame_id") == Some(t.id.to_string()), 3.0);
+        triggers.push(t);
+    }
+    let flush = w.append_c("flush", ctx, None, None);
+    let term = w.wait(|f| (f.topic == "h.out" && meta_str(f, "frame_id") == Some(flush.id.to_string())) || (f.topic == "h.unregistered" && meta_str(f, "handler_id") == Some(reg.id.to_string())), 30.0);
+    if term.as_ref().map(|t| t.topic != "h.out").unwrap_or(true) {
+        fs.push(F { kind: "c15.unexpected_unregister".into(), msg: format!("own-return script: no answer to the flush frame ({:?})", term.map(|t| t.meta)) });
+    }
+    let log = w.snapshot();
+    let entries: Vec<&Frame> = log.iter().filter(|f| f.topic == "journal").collect();
+    let got: Vec<Option<String>> = entries.iter().map(|f| meta_str(f, "frame_id")).collect();
+    let want: Vec<Option<String>> = triggers.iter().map(|t| Some(t.id.to_string())).collect();
+    if got != want {
+        fs.push(F { kind: "c15.stamp".into(), msg: format!("a closure that appends and returns one of its own earlier frames: the explicit appends carry frame_id {:?}, the triggers were {:?} (each call's append belongs to that call)", got, want) });
+    }
+    for f in &entries {
+        if meta_str(f, "handler_id") != Some(reg.id.to_string()) || f.context_id != ctx || w.content(f).as_deref() != Some("entry") {
+            fs.push(F { kind: "c15.stamp".into(), msg: format!("own-return script: journal frame {:?} ctx {} content {:?}", f.meta, f.context_id, w.content(f)) });
+        }
+    }
+    // the returned own frame is not emitted again
+    let outs = log.iter().filter(|f| f.topic == "h.out" && triggers.iter().any(|t| meta_str(f, "frame_id") == Some(t.id.to_string()))).count();
+    if outs != 0 {
+        fs.push(F { kind: "c15.count".into(), msg: format!("own-return script: {} return frames for calls that returned one of the handler's own frames", outs) });
+    }
+    w.stop();
+    (fs, "own-return".into())
+}
+
 pub fn worker() {
     common::worker_loop(move |job| {
+        if job.get("own_return").is_some() {
+            let (fs, outcome) = run_own_return();
+            return json!({"findings": fs.iter().map(|f| json!({"kind": f.kind, "msg": f.msg})).collect::<Vec<_>>(), "outcome": outcome});
+        }
         let p: Program = serde_json::from_value(job.clone()).unwrap();
         let (fs, outcome) = run_program(&p);
         json!({"findings": fs.iter().map(|f| json!({"kind": f.kind, "msg": f.msg})).collect::<Vec<_>>(), "outcome": outcome})
@@ -300,6 +351,16 @@ pub fn worker() {
 pub fn run(tier: &str, report: &mut Report) {
     let progs = programs(common::tier_is_thorough(tier));
     let jobs: Vec<Value> = progs.iter().map(|p| serde_json::to_value(p).unwrap()).collect();
+    // one more script shape, outside the grammar above: it needs several calls
+    let own = common::pool_map("c15", &[], 1, vec![json!({"own_return": true})]);
+    for f in own[0]["findings"].as_array().cloned().unwrap_or_default() {
+        let kind = f["kind"].as_str().unwrap_or("?");
+        if kind == "c15.harness" || own[0].get("crashed").is_some() {
+            eprintln!("HARNESS ERROR: {}", own[0]);
+            std::process::exit(2);
+        }
+        report.add_violation(Violation { property: "C15".into(), signature: format!("E5:own_return:{}", kind), message: f["msg"].as_str().unwrap_or("").to_string(), replay: json!({"engine": "c15", "own_return": true}) });
+    }
     let results = common::pool_map("c15", &[], common::ncpu(), jobs.clone());
     let mut outcomes: HashSet<String> = HashSet::new();
     for (p, r) in progs.iter().zip(results.iter()) {
@@ -329,10 +390,18 @@ pub fn run(tier: &str, report: &mut Report) {
     report.cov("distinct_outcomes", json!(outcomes.len()));
     report.cov("exhaustive", json!(true));
     report.cov("samples", json!(progs.iter().step_by((progs.len() / 4).max(1)).take(4).map(|p| script(p, "<ctxB>")).collect::<Vec<_>>()));
-    report.cov("explanation", json!("every handler script of the grammar {0..2 explicit .append with flags in {none, --meta colliding with the stamps, --ttl, --context other}, plus shapes with an append the store refuses at emission time (xs.context outside the zero context, NUL in the topic) in first / middle / last position} x {return nothing/string/int/float/bool/list/record/empty string/empty list/empty record/zero} x {return_options none/suffix/ttl head/ttl time/ephemeral+suffix} x {failure none/before/between/after the appends; content store failing between the last explicit append and the return value} (quick: every value of every dimension and all pairs with the append shape) is registered on a fresh store behind the real handlers::serve, triggered once and flushed by a sentinel frame; observed through a follower so ephemeral outputs count"));
+    report.cov("explanation", json!("every handler script of the grammar {0..2 explicit .append with flags in {none, --meta colliding with the stamps, --ttl, --context other}, plus shapes with an append the store refuses at emission time (xs.context outside the zero context, NUL in the topic) in first / middle / last position} x {return nothing/string/int/float/bool/list/record/empty string/empty list/empty record/zero} x {return_options none/suffix/ttl head/ttl time/ephemeral+suffix} x {failure none/before/between/after the appends; content store failing between the last explicit append and the return value} (quick: every value of every dimension and all pairs with the append shape) is registered on a fresh store behind the real handlers::serve, triggered once and flushed by a sentinel frame; observed through a follower so ephemeral outputs count; plus a closure that appends explicitly and returns one of its own earlier frames, called three times"));
 }
 
 pub fn replay(v: &Value) -> i32 {
+    if v.get("own_return").is_some() {
+        let (fs, o) = run_own_return();
+        println!("outcome {}", o);
+        for f in &fs {
+            println!("finding {}: {}", f.kind, f.msg);
+        }
+        return if fs.is_empty() { 0 } else { 1 };
+    }
     let p: Program = serde_json::from_value(v["program"].clone()).unwrap();
     println!("{}", script(&p, "<ctxB>"));
     let (fs, o) = run_program(&p);
